@@ -33,6 +33,7 @@ func init() {
 		Rule{ID: "R05g", Doc: "a pooled connection reported Available never refuses the next id, and one that refuses is retired (otherwise every exchange on it fails until it idles out; shared with C05)", Floor: 4, AllVariants: true, Run: r05g},
 		Rule{ID: "R14h", Doc: "a dead cached QUIC connection is detected on its own context", Floor: 2, AllVariants: true, Run: r14h},
 		Rule{ID: "R14i", Doc: "blocking QUIC stream opens wait on the exchange context", Floor: 2, AllVariants: true, Run: r14i},
+		Rule{ID: "R06c", Doc: "the per-exchange deadline of a reused connection is set before the query is written (the write must not run under the previous exchange's expired deadline; shared with C06)", Floor: 6, AllVariants: true, Run: r06c},
 	)
 }
 
